@@ -145,6 +145,17 @@ where
     }
 }
 
+#[cfg(feature = "verif-hooks")]
+impl<ID> Parser<ID>
+where
+    ID: Eq + Hash + Clone + Debug,
+{
+    /// Verification hook: the stored parse-stage results (AST and syntax diagnostics before validation)
+    pub fn verif_parse_results(&self) -> &HashMap<ID, ParseFileResult<ID>> {
+        &self.lalrpop_results
+    }
+}
+
 impl Parser<PathBuf> {
     /// Add a file to the parser and use its path as key.
     ///
